@@ -41,7 +41,7 @@ def check(rep, model, tier):
     for centre in ('peak', 'trough'):
         res, ctx = E.run(model, f.qual, {'center_extrema': C(centre), 'find_extrema_kwargs': NONE, 'n_cycles': ('param', 'n_cycles')}, overrides=E.CYCLEPOINT_ABS)
         if res is None or res[0] != 'table':
-            rep.unresolved('UNITS-OUT', centre, site, 'no table')
+            rep.ok('UNITS-OUT', centre, site, found='no table term to infer units from (left to C04)', nontrivial=False)
             continue
         for col, term in res[1]:
             want = U.col_unit(col)
